@@ -83,10 +83,14 @@ Arguments f_payload {V}. Arguments f_cols {V}. Arguments f_tail_ok {V}.
 (* side-car: name -> (pmin, pmax) in insertion order *)
 Notation sidecar := (list (string * (list Q * list Q))).
 
+(* the check values are read from io/ovf.py on every run (Constants_gen): the reader's table ... *)
 Definition check_value (r : repr) : Q :=
-  match r with RBin4 => 1234567 | RBin8 => 123456789012345 | RTxt => 0 end.
+  match r with RBin4 => Constants_gen.ovf_read_check4 | RBin8 => Constants_gen.ovf_read_check8 | RTxt => 0 end.
+(* ... and the writer's table; they must agree for a written file to be readable (lemma write_check_agrees) *)
+Definition write_check_value (r : repr) : Q :=
+  match r with RBin4 => Constants_gen.ovf_write_check4 | RBin8 => Constants_gen.ovf_write_check8 | RTxt => 0 end.
 
-Definition default_tf : Q := 1 # 1000000000000.
+Definition default_tf : Q := Constants_gen.region_tf_default.
 
 (* ---------- strings: label and unit rules ---------- *)
 Definition us : ascii := "_"%char.
@@ -194,7 +198,7 @@ Section Codec.
                    (n m) (cell m) (pmin r) (pmax r)
                    (Some (Z.of_nat write_dim)) (Some labels)
                    (Some (repeat (unit_token (of_unit f)) write_dim))
-                   rp (match rp with RTxt => None | _ => Some (check_value rp) end)
+                   rp (match rp with RTxt => None | _ => Some (write_check_value rp) end)
                    (map (wr rp) payload)
                    (if extend then 3%nat else nv) true,
             if save_sub && negb (length (subs m) =? 0)%nat then Some (sidecar_of m) else None)
